@@ -67,6 +67,8 @@ TEMPLATES = {
     "nested_two_inner_elem_deleted": ["assert [{a}] == snapshot([[snapshot({a}+0), snapshot({b}+0)], {a}])"],
     "nested_three_inner_in_dict_value_replaced": ["assert {{'k': 1}} == snapshot({{'k': [snapshot({a}+0), snapshot({b}+0), snapshot(0+1)], 'gone': (snapshot(2+0), snapshot(3+0))}})"],
     "nested_two_inner_in_deleted_call_arg": ["assert DC(a=1) == snapshot(DC(a=1, b=[snapshot({a}+0), snapshot({b}+0)]))"],
+    "subsnapshot_create_trim_blank": ["s = snapshot({{'a': 1, 'unused': 2 }})", "assert s['a'] == 1", "assert s['b'] == {a}"],
+    "in_fix_trim_blank": ["for x in (2, {b}):", "    assert x in snapshot([2, 3 ])"],
     "subsnapshot_is_reevaluated": ["for i in range(3):", "    assert snapshot({{'a': Is({a}), 'b': [Is(i)]}})['a'] == {a}"],
     "nested_subsnapshot": ["s = snapshot({{'k': [snapshot({a})]}})", "assert s['k'] == [{b}, {a}]"],
     "nested_le": ["assert [{a}] == snapshot([snapshot({b})])", "assert 1 == snapshot(2)"],
@@ -187,6 +189,8 @@ def run_shard(args):
         rng = random.Random(f"{args.seed}/{PROP}/session/{args.shard}/{c}")
         picked = [names[(args.shard * 7 + c * 3 + j) % len(names)] for j in range(2)] + [rng.choice(names) for _ in range(rng.randint(3, 7))]
         picked = [n for n in picked if n not in ("cmp_eq_raises",)]
+        if c == 0:
+            picked = ["subsnapshot_create_trim_blank", "in_fix_trim_blank"] + picked  # categories that meet in one container
         tests = [bad_test(rng, k, n) for k, n in enumerate(picked)]
         gsites = [c05.make_site(rng, 100 + i, 2) for i in range(rng.randint(2, 5))]
         for gs in gsites:
